@@ -155,3 +155,40 @@ PROPS["C03"] = {
     "assumptions": ["mock.rs: region buffer forms are the obvious byte loop implementing the documented region contract; stream/atomic/slice forms delegate to a real VolatileSlice",
                     "cffi.rs: sysconf answers a 64-byte page for raw-pointer regions"],
 }
+
+_C02_RULES = _MOCK_RULES + [
+    [r"c023Lay5owner", 4], [r"c023Lay8max_last", 4], [r"c023Lay12range_mapped", 4], [r"c028real_map", 5], [r"c028mock_map", 4],
+    [r"binary_search_by", 4], [r"16from_arc_regions", 4], [r"GuestMemoryMmap.*4iter", 5], [r"4fold", 5], [r"Windows", 4],
+]
+
+PROPS["C02"] = {
+    "groups": [
+        {"crate": "std", "quick": ["c02::real1", "c02::real2", "c02::mock1", "c02::mock2"], "thorough": ["c02::real3", "c02::mock3"],
+         "jobs": 8, "mem_gb": 10, "timeout_s": 1200, "timeout_thorough_s": 3600, "stubbed": True,
+         "unwindset": {"default": 4, "rules": _C02_RULES}},
+    ],
+    "bounds": "layouts of 1..2 (thorough: 3) regions; guest bases and sizes symbolic 64-bit (sizes >= 1; get_slice harnesses: sizes <= 4), constrained only "
+              "by what GuestRegionMmap::new / from_arc_regions accept; query address, length, offset unconstrained; one lookup per query; "
+              "real GuestMemoryMmap<()> over raw-pointer regions AND the contract-level mock (default trait methods)",
+    "outside": "collections of more than 3 regions (binary search depth > 2); len == 0 for check_range/get_slice at an unmapped base (the statement fixes no answer; only absence of panic is checked)",
+    "assumptions": ["cffi.rs: sysconf answers a 64-byte page; regions wrap an external pointer that is never dereferenced in the query harnesses"],
+}
+
+_C10_RULES = _C02_RULES + [
+    [r"stable_sort_stub", 5], [r"vec_remove_stub", 4], [r"c1012lay_overlaps", 4], [r"c10.*from_regions_body", 5], [r"c10.*remove_step", 4],
+    [r"5clone", 5], [r"Drain", 5], [r"from_iter", 5], [r"extend", 5], [r"to_vec", 5], [r"9try_fold", 5],
+]
+
+PROPS["C10"] = {
+    "groups": [
+        {"crate": "std", "quick": ["c10::new_region", "c10::from_", "c10::insert1", "c10::remove1", "c10::remove2_result"],
+         "thorough": ["c10::insert2", "c10::remove2", "c10::remove3"],
+         "jobs": 3, "mem_gb": 20, "timeout_s": 1500, "timeout_thorough_s": 3600, "stubbed": True,
+         "unwindset": {"default": 4, "rules": _C10_RULES}},
+    ],
+    "bounds": "starting map of 1..2 (remove: up to 3) regions with symbolic 64-bit bases and sizes; one insert or one remove with symbolic arguments; "
+              "one question per query (result + identity of the handle / one find_region on the new map / one on the old map); from_regions/from_arc_regions with 0..3 regions",
+    "outside": "maps with more than 3 regions after the step; sequences are covered by induction on the single step; 'keeps reaching the same memory' for old handles is C12",
+    "assumptions": ["alloc::slice::stable_sort modelled by an insertion sort, alloc::vec::Vec::remove by rotate-to-end + pop (harness/std/src/stdstubs.rs): std is the environment",
+                    "cffi.rs sysconf model (64-byte page)"],
+}
